@@ -365,7 +365,7 @@ def run_chunk(ctx, idx, chunk, impl, model, timeout):
 
 def run(ctx):
     vlib.coq_hygiene(ctx)
-    vlib.coq_properties(ctx, "C14", extra_files=("Properties_C14_general.v",))
+    vlib.coq_properties(ctx, "C14", extra_files=("Properties_C14_general.v", "Properties_C14_perm_sorted.v"))
     impl, msg1 = vlib.build_harness(ctx, src="drv_ldl.cpp", name="drv_ldl")
     model, msg2 = build_model14(ctx)
     if impl is None:
